@@ -103,7 +103,9 @@ func runC13(res *lib.Result, tier string, seed int64, args []string) error {
 		var detached []string // markers of comments separated from every declaration by a blank line
 		marker := 0
 		mark := func() string { marker++; return fmt.Sprintf(" zq%dz", marker) }
-		lines := []string{"local T = {}", "GT = {}", ""}
+		// fixed head: a long string that spans lines, with a trailing comment on its last line; the undocumented
+		// declaration on the next line must not inherit that comment
+		lines := []string{"local T = {}", "GT = {}", "local zqbanner = [[", "line one", "line two]] -- trailing of the long string zqBz", "local zqlimit = 10", "print(zqbanner, zqlimit)", ""}
 		var decls []decl
 		add := func(kind int) {
 			name := fmt.Sprintf("v%d", len(decls)+1)
@@ -142,6 +144,11 @@ func runC13(res *lib.Result, tier string, seed int64, args []string) error {
 			}
 			m1 := mark()
 			c1 := pick() + m1
+			if len(decls)%4 == 2 {
+				c1 += " 1-" // a comment that ends with a hyphen (and one that ends with two, below)
+			} else if len(decls)%4 == 3 {
+				c1 += " --"
+			}
 			comment := c1
 			markers := []string{m1}
 			trailing := r.Chance(1, 2)
@@ -293,6 +300,9 @@ func runC13(res *lib.Result, tier string, seed int64, args []string) error {
 		}
 		sess.DidOpen("main.lua", src)
 		sess.Sync()
+		if hz, err := sess.Hover("main.lua", 5, 6); err == nil && (strings.Contains(hz, "zqBz") || !strings.Contains(hz, "zqlimit")) {
+			res.AddViolation("impl-vs-spec", fmt.Sprintf("the undocumented local zqlimit shows %q: the comment behind the long string on the line above is not its documentation", lib.Trunc(hz, 200)), src, false)
+		}
 		col := len("print(")
 		for _, d := range decls {
 			caseText := fmt.Sprintf("hover at %d:%d (%s, script %s) in\n%s", useLine, col, d.name, script, src)
